@@ -580,7 +580,11 @@ def run_cmp(w):
         if e:
             return e
         res = _collect(set(f for f, _ in files))
-        other_formats(argv, stdin_data, res)
+        if not (num == "0" and sc == "0"):
+            # `compute -n 0` without --scaled is accepted and writes always-empty sketches with neither num nor scaled
+            # (an observation, outside the statement); the savers of the other output formats refuse such a sketch,
+            # which is not a property of the command under test
+            other_formats(argv, stdin_data, res)
         return res
     finally:
         os.chdir(old)
